@@ -14,6 +14,11 @@ AV(name, q) == [op |-> "AV", s1 |-> "", br |-> FALSE, s2 |-> "", body |-> name, 
                 inc |-> TRUE, who |-> "S"]
 SR(name, q) == [op |-> "SR", s1 |-> "", br |-> FALSE, s2 |-> "", body |-> name, he |-> TRUE, eqn |-> q,
                 inc |-> TRUE, who |-> "S"]
+AT(s1, br, s2, name, tb) ==        \* AddTermToEquation(name, <s1 ( s2 tb )>)
+    [op |-> "AT", s1 |-> s1, br |-> br, s2 |-> s2, body |-> name, he |-> TRUE, eqn |-> tb,
+     inc |-> TRUE, who |-> "S"]
+AQ(name) == [op |-> "AQ", s1 |-> "", br |-> FALSE, s2 |-> "", body |-> name, he |-> FALSE, eqn |-> "",
+             inc |-> TRUE, who |-> "S"]
 EX(name, who) == [op |-> "EX", s1 |-> "", br |-> FALSE, s2 |-> "", body |-> name, he |-> FALSE, eqn |-> "",
                   inc |-> TRUE, who |-> who]
 
@@ -27,7 +32,6 @@ MC_AlphaQuick == {
     CF("-", FALSE, "",  "_7__A",    TRUE),  \* -_7__A      the same in alias form
     CF("+", FALSE, "",  "A*B", TRUE),       \* +A*B
     CF("-", FALSE, "",  "2*A", TRUE),       \* -2*A        numeric factor: the sign belongs to the whole term
-    CF("",  TRUE,  "-", "2*A", FALSE),      \* (-2*A)      not income
     CF("-", TRUE,  "",  "A/2", TRUE),       \* -(A/2)
     CF("+", FALSE, "",  "A/B", TRUE),       \* +A/B
     CF("-", TRUE,  "",  "B/A", TRUE),       \* -(B/A)      not the same flow as A/B
@@ -35,9 +39,10 @@ MC_AlphaQuick == {
     CFE("-", FALSE, "",  "A", D2, TRUE),
     CFE("",  FALSE, "",  "A", "", FALSE),
     CFE("-", TRUE,  "-", "B", D1, TRUE),
-    EX("A", "S"), EX("A*B", "S"), EX("A", "T"), EX("A", "O"),
+    EX("A", "S"), EX("A*B", "S"), EX("A", "T"),
     AV("A", ""), AV("A", "0.0"), AV("A", D3), AV("B", D4),        \* D3, D4, D5 begin like a zero literal
-    SR("A", D5), SR("A", "0.0") }
+    SR("A", D5), SR("A", "0.0"),
+    AT("+", FALSE, "", "A", "Z"), AT("-", FALSE, "", "A", "Z") }   \* a definition built (and cancelled) term by term
 
 (* the five sign / bracket spellings of the statement, and the bare name *)
 Form(s1, br, s2) == [s1 |-> s1, br |-> br, s2 |-> s2]
@@ -50,7 +55,8 @@ Forms4 == {FPlus, FMinus, FInner, FBoth}
 MC_AlphaMid ==
     { CF(f.s1, f.br, f.s2, "A", i) : f \in {FPlus, FMinus}, i \in BOOLEAN }
     \cup { CF("", TRUE, "-", "A", TRUE), CF("-", TRUE, "-", "A", FALSE) }
-    \cup { CF(f.s1, f.br, f.s2, "2*A", TRUE) : f \in Forms4 } \cup { CF("-", TRUE, "", "2*A", FALSE) }
+    \cup { CF(f.s1, f.br, f.s2, "2*A", TRUE) : f \in Forms4 } \cup { AT(f.s1, f.br, f.s2, "A", "Z") : f \in {FPlus, FMinus, FBoth} }
+    \cup { AT("+", FALSE, "", "A", "W"), AQ("A") }
     \cup { CF("-", FALSE, "", b, TRUE) : b \in {"A*2", "A/2", "2/A"} }
     \cup { CF(f.s1, f.br, f.s2, "A/B", i) : f \in {FPlus, FMinus}, i \in BOOLEAN }
     \cup { CF("-", TRUE, "-", "A/B", FALSE) }
@@ -60,7 +66,7 @@ MC_AlphaMid ==
     \cup { CFE(f.s1, f.br, f.s2, "A", q, TRUE) : f \in {FPlus, FMinus}, q \in {D1, D2} }
     \cup { CFE("+", FALSE, "", "A", D1, FALSE), CFE("+", FALSE, "", "A", D3, TRUE) }
     \cup { CFE("", FALSE, "", "A", "", FALSE), CFE("-", TRUE, "-", "B", "", TRUE) }
-    \cup { AV("A", q) : q \in Eqns } \cup { AV("B", D4) }
+    \cup { AV("A", q) : q \in {"", "0.0", D3, D5, "0"} } \cup { AV("B", D4) }
     \cup { SR("A", D1), SR("A", D3), SR("A", "0.0"), SR("A", "") }
     \cup { EX("A", "S"), EX("A*B", "S"), EX("A/B", "S"), EX("B/A", "S"), EX("A", "T"), EX("A/B", "T"), EX("A", "O"), EX("OTHER__A", "S") }
 
@@ -68,10 +74,10 @@ MC_AlphaMid ==
 MC_AlphaLen4 == {
     CF("",  FALSE, "",  "A",   TRUE),  CF("-", FALSE, "",  "A",   TRUE),  CF("-", TRUE,  "-", "A",   FALSE),
     CF("+", FALSE, "",  "OTHER__A", TRUE),  CF("+", FALSE, "",  "A*B", TRUE),  CF("-", FALSE, "",  "2*A", TRUE),
-    CF("+", FALSE, "",  "A/B", TRUE),  CF("-", TRUE,  "",  "B/A", TRUE),  CF("",  TRUE,  "-", "A/2", FALSE),
-    CFE("+", FALSE, "", "A", D1, TRUE), CFE("-", FALSE, "", "A", D2, TRUE), CFE("", FALSE, "", "A", "", FALSE),
-    EX("A", "S"), EX("A/B", "S"), EX("A", "T"),
-    AV("A", ""), AV("A", D3), AV("A", D5), SR("A", D1), SR("A", "0.0") }
+    CF("+", FALSE, "",  "A/B", TRUE),  CF("-", TRUE,  "",  "B/A", TRUE),      CFE("+", FALSE, "", "A", D1, TRUE), CFE("-", FALSE, "", "A", D2, TRUE), CFE("", FALSE, "", "A", "", FALSE),
+    EX("A", "S"), EX("A", "T"),
+    AV("A", ""), AV("A", D3), SR("A", D1), SR("A", "0.0"),
+    AQ("A"), AT("+", FALSE, "", "A", "Z"), AT("-", FALSE, "", "A", "Z") }
 
 (* thorough, length 2: every action of the instance (all six spellings, all twelve bodies,  *)
 (* all nine right-hand-side texts for AddVariable / SetRHS)                              *)
@@ -82,9 +88,11 @@ MC_AlphaFull ==
     \cup { AV(n, q) : n \in FlowNames, q \in Eqns }
     \cup { SR(n, q) : n \in FlowNames, q \in Eqns }
     \cup { EX(b, w) : b \in Bodies, w \in Sectors }
+    \cup { AT(f.s1, f.br, f.s2, n, tb) : f \in {FPlus, FMinus, FBoth}, n \in FlowNames, tb \in TBodies }
+    \cup { AQ(n) : n \in FlowNames }
 
 (* a short string that identifies an action within any alphabet *)
-Key(a) == a.op \o ":" \o TermText(a) \o ":" \o (IF a.he THEN a.eqn ELSE "none") \o ":"
+Key(a) == a.op \o ":" \o (IF a.op = "AT" THEN a.body \o "~" ELSE "") \o TermText(a) \o ":" \o (IF a.he THEN a.eqn ELSE "none") \o ":"
           \o (IF a.inc THEN "i" ELSE "n") \o a.who
 
 Terminal == Len(log) = MaxLen
